@@ -62,6 +62,14 @@ class GCPMapping:
         self._p2w: Optional[Poly2d] = None
         self._w2p: Optional[Poly2d] = None
 
+    def __getstate__(self):
+        # fitted polynomials hold local functions that can not be pickled,
+        # they are fitted again on demand
+        state = self.__dict__.copy()
+        state["_p2w"] = None
+        state["_w2p"] = None
+        return state
+
     @property
     def p2w(self) -> Poly2d:
         """Pixel to world."""
